@@ -1,4 +1,4 @@
-P('C12', shards=8, race=True,
+P('C12', shards=16, race=True,
   passes=[{'race': True}, {'race': True, 'env': {'GOMAXPROCS': 2}, 'tiers': ['thorough']}, {'race': True, 'env': {'GOMAXPROCS': 4}, 'tiers': ['thorough']}],
   technique='property-based concurrency testing (rapid-generated writer scripts and reader loops around the 256-entry switch) with in-line reader assertions and a final comparison with the set-of-prefixes model, under the race detector with a GOMAXPROCS sweep',
   text='Generated scenarios preload the filter close to its 256-entry list limit, then run W writers (disjoint ranges, add/remove scripts, optional 0.0.0.0/0 toggling) against R readers so that the list-to-map migration happens while lookups are in flight. '
